@@ -652,3 +652,28 @@ def neighbours(case, rng):
                 out.append(one("ul_upload", [T(ul_x(rng, "upload", (x["idx"], x["sub"]), x.get("odt")), t.get("style"))],
                                store=[[k, v]]))
     return out
+
+
+# ---- histories with an abandoned (partly read) upload against the library's own server (oracle only) ----
+from ref import libsrv_faults as _lib
+_impl0, _oracle0, _gen0, _nontrivial0, _shrink0 = impl, oracle, gen_cases, nontrivial, shrink
+
+
+def impl(c):
+    return _lib.run_partial(c) if c.get("kind") == "libsrv_partial" else _impl0(c)
+
+
+def oracle(c, o):
+    return _lib.check_partial(c, o) if c.get("kind") == "libsrv_partial" else _oracle0(c, o)
+
+
+def gen_cases(rng, tier):
+    return _gen0(rng, tier) + _lib.gen_partial(rng, tier)
+
+
+def nontrivial(c):
+    return True if c.get("kind") == "libsrv_partial" else _nontrivial0(c)
+
+
+def shrink(c):
+    return [] if c.get("kind") == "libsrv_partial" else _shrink0(c)
